@@ -1,5 +1,270 @@
 import NibabelModel.Model.C20
-/-! Props/C20 — the property theorems for C20 (statements + proofs; helper lemmas live in Lemmas/). -/
+import NibabelModel.Lemmas.C20_Load
+import NibabelModel.Lemmas.C20_Trunc
+/-! Props/C20 — property theorems for C20 (PAR/REC volumes are assembled by slice labels, not by
+    record order).  Helper lemmas: Lemmas/C20_Sort, C20_Vol, C20_Strict, C20_Load. -/
 namespace Nb.C20
+
+/-! ### concrete data used by the non-vacuity examples and the counterexample -/
+
+/-- V4.2 header of a 2-slice, 2-dynamic recording -/
+def exCfg : Cfg := ⟨.v42, false, 2, 1, 2, 1, 1⟩
+
+/-- record (slice, dynamic) with its own scale factors and payload -/
+def exRec (sl dy : Int) (ri rs ss : Int) (pl : Nat) : Rec :=
+  { slice := sl, echo := 1, dyn := dy, phase := 1, itype := 0, seq := 2, bval := 1, grad := 1, label := 1,
+    ri := ri, rs := rs, ss := ss, payload := pl }
+
+def exFull : List Rec := [exRec 1 1 3 2 5 11, exRec 2 1 (-1) 4 3 12, exRec 1 2 7 6 2 21, exRec 2 2 0 3 3 22]
+def exFullShuffled : List Rec := [exRec 2 2 0 3 3 22, exRec 1 1 3 2 5 11, exRec 1 2 7 6 2 21, exRec 2 1 (-1) 4 3 12]
+/-- the recording stopped after the first slice of the second volume -/
+def exTrunc : List Rec := [exRec 1 1 3 2 5 11, exRec 2 1 (-1) 4 3 12, exRec 1 2 7 6 2 21]
+
+/-! ### 1. strict sorting does not depend on the record order -/
+
+/-- **strict_sort_perm_invariant.**  For every record list with pairwise distinct strict sort keys
+    and every permutation of it (the REC slabs travel with their records: the payload is a field of
+    the record), `get_sorted_slice_indices` under strict sorting selects the same records in the same
+    order — including the trimming to `prod(shape[2:])` entries, errors included. -/
+theorem strict_sort_perm_invariant (c : Cfg) (r₁ r₂ : List Rec) (hp : r₁.Perm r₂) (hk : keysNodup c r₁) :
+    assembled c r₁ = assembled c r₂ := by
+  rw [assembled_eq, assembled_eq, strictOrder_recs_perm c hp hk, nVols_perm c hp, nSlices_perm hp]
+
+example : exFull.Perm exFullShuffled ∧ keysNodup exCfg exFull ∧
+    assembled exCfg exFullShuffled = .ok exFull := by decide
+
+/-- shape (`n_slices`, `n_vols`) is the same for every record order (no key hypothesis needed) -/
+theorem shape_perm_invariant (c : Cfg) (r₁ r₂ : List Rec) (hp : r₁.Perm r₂) :
+    nSlices r₁ = nSlices r₂ ∧ nVols c r₁ = nVols c r₂ :=
+  ⟨nSlices_perm hp, nVols_perm c hp⟩
+
+/-! ### 2. one index list for data, scale factors and labels; own-record scaling -/
+
+/-- **same_indices_everywhere / scaling_own_record.**  Whatever the sort (strict, lax, original),
+    the scaling method and the header: output slice `k` of a successful load is the slab of the record
+    at file position `idx[k]`, and slope and intercept `k` are the dv / fp factors of THAT record. -/
+theorem same_indices_everywhere (c : Cfg) (permit strict orig : Bool) (m : Scaling) (recs : List Rec) (o : Out)
+    (h : load c permit strict m orig recs = .ok o) :
+    ∃ kept : List (Nat × Rec), (∀ p ∈ kept, recs[p.1]? = some p.2) ∧
+      o.idx = kept.map (·.1) ∧ o.data = kept.map (·.2.payload) ∧
+      o.slopes = kept.map (slopeOf m ·.2) ∧ o.inters = kept.map (interOf m ·.2) ∧
+      o.labels = volumeLabels c recs (kept.map (·.2)) := by
+  unfold load at h
+  cases ht : truncationChecks c permit recs with
+  | error e => rw [ht] at h; cases h
+  | ok u =>
+    rw [ht] at h
+    cases hn : nVols c recs with
+    | error e => rw [hn] at h; cases h
+    | ok nv =>
+      rw [hn] at h
+      cases hs : sortedSlices c strict orig recs with
+      | error e => rw [hs] at h; cases h
+      | ok kept =>
+        rw [hs] at h
+        refine ⟨kept, sortedSlices_atPos hs, ?_⟩
+        simp only [bind, Except.bind, pure, Except.pure] at h
+        split at h
+        · cases h
+        · injection h with h
+          subst h
+          exact ⟨rfl, rfl, rfl, rfl, rfl⟩
+
+/-- `scaling_own_record`, pointwise form: the k-th slope/intercept are those of the record whose
+    slab is the k-th output slice -/
+theorem scaling_own_record (c : Cfg) (permit strict orig : Bool) (m : Scaling) (recs : List Rec) (o : Out)
+    (h : load c permit strict m orig recs = .ok o) (k : Nat) (hk : k < o.idx.length) :
+    ∃ r, recs[o.idx[k]]? = some r ∧ o.data[k]? = some r.payload ∧
+      o.slopes[k]? = some (slopeOf m r) ∧ o.inters[k]? = some (interOf m r) := by
+  obtain ⟨kept, hpos, hi, hd, hs, hn, _⟩ := same_indices_everywhere c permit strict orig m recs o h
+  have hk' : k < kept.length := by simpa [hi] using hk
+  refine ⟨kept[k].2, ?_, ?_, ?_, ?_⟩
+  · have := hpos kept[k] (List.getElem_mem hk')
+    simpa [hi] using this
+  · simp [hd, hk']
+  · simp [hs, hk']
+  · simp [hn, hk']
+
+example : ∃ o, load exCfg true true .fp false exTrunc = .ok o ∧ o.idx = [0, 1] ∧ o.data = [11, 12] := by
+  refine ⟨_, rfl, ?_, ?_⟩ <;> decide
+
+/-- the parts of a successful load -/
+theorem load_ok_parts (c : Cfg) (permit strict orig : Bool) (m : Scaling) (recs : List Rec) (o : Out)
+    (h : load c permit strict m orig recs = .ok o) :
+    ∃ kept nv, sortedSlices c strict orig recs = .ok kept ∧ nVols c recs = .ok nv ∧
+      o.shape = shapeTail (nSlices recs) nv ∧ o.data = (kept.map (·.2)).map (·.payload) ∧
+      o.slopes = (kept.map (·.2)).map (slopeOf m) ∧ o.inters = (kept.map (·.2)).map (interOf m) ∧
+      o.labels = volumeLabels c recs (kept.map (·.2)) := by
+  unfold load at h
+  cases ht : truncationChecks c permit recs with
+  | error e => rw [ht] at h; cases h
+  | ok u =>
+    rw [ht] at h
+    cases hn : nVols c recs with
+    | error e => rw [hn] at h; cases h
+    | ok nv =>
+      rw [hn] at h
+      cases hs : sortedSlices c strict orig recs with
+      | error e => rw [hs] at h; cases h
+      | ok kept =>
+        rw [hs] at h
+        refine ⟨kept, nv, rfl, rfl, ?_⟩
+        simp only [bind, Except.bind, pure, Except.pure] at h
+        split at h
+        · cases h
+        · injection h with h
+          subst h
+          simp [List.map_map, Function.comp_def]
+
+theorem volumeLabels_perm (c : Cfg) {r₁ r₂ : List Rec} (hp : r₁.Perm r₂) (kept : List Rec) :
+    volumeLabels c r₁ kept = volumeLabels c r₂ kept := by
+  unfold volumeLabels
+  congr 1
+  apply List.filter_congr
+  intro kf _
+  rw [distinctCount_congr (l₁ := r₁.map kf.2) (l₂ := r₂.map kf.2) (fun a => (hp.map _).mem_iff)]
+
+/-- **hence array, scaling arrays, labels and shape are equal**: two successful strict loads of the
+    same key-distinct records in different file orders (slabs permuted alike) return the same data
+    (per-slice slab identity), slopes, intercepts, volume labels and shape.  (That success itself does
+    not depend on the order is not part of this statement; the error behaviour is compared with the
+    implementation by the correspondence run.) -/
+theorem load_perm_invariant (c : Cfg) (permit : Bool) (m : Scaling) (r₁ r₂ : List Rec) (o₁ o₂ : Out)
+    (hp : r₁.Perm r₂) (hk : keysNodup c r₁)
+    (h₁ : load c permit true m false r₁ = .ok o₁) (h₂ : load c permit true m false r₂ = .ok o₂) :
+    o₁.shape = o₂.shape ∧ o₁.data = o₂.data ∧ o₁.slopes = o₂.slopes ∧ o₁.inters = o₂.inters ∧
+      o₁.labels = o₂.labels := by
+  obtain ⟨k₁, n₁, hs₁, hn₁, e₁⟩ := load_ok_parts c permit true false m r₁ o₁ h₁
+  obtain ⟨k₂, n₂, hs₂, hn₂, e₂⟩ := load_ok_parts c permit true false m r₂ o₂ h₂
+  have hnv : n₁ = n₂ := by
+    have := nVols_perm c hp
+    rw [hn₁, hn₂] at this
+    injection this
+  have hkept : k₁.map (·.2) = k₂.map (·.2) := by
+    have := strict_sort_perm_invariant c r₁ r₂ hp hk
+    unfold assembled at this
+    rw [hs₁, hs₂] at this
+    injection this
+  obtain ⟨a₁, b₁, c₁, d₁, f₁⟩ := e₁
+  obtain ⟨a₂, b₂, c₂, d₂, f₂⟩ := e₂
+  refine ⟨?_, ?_, ?_, ?_, ?_⟩
+  · rw [a₁, a₂, hnv, nSlices_perm hp]
+  · rw [b₁, b₂, hkept]
+  · rw [c₁, c₂, hkept]
+  · rw [d₁, d₂, hkept]
+  · rw [f₁, f₂, hkept, volumeLabels_perm c hp]
+
+example : ∃ o₁ o₂, load exCfg false true .fp false exFull = .ok o₁ ∧
+    load exCfg false true .fp false exFullShuffled = .ok o₂ ∧ o₁.data = [11, 12, 21, 22] ∧ o₂.idx = [1, 3, 2, 0] :=
+  ⟨_, _, rfl, rfl, by decide, by decide⟩
+
+/-! ### 3. the defect of the pinned tree -/
+
+/-- **strict_truncated_orig_counterexample.**  ORIGINAL `_strict_sort_order` (volume numbers and
+    fullness over the whole sorted sequence, second stage `lexsort((vol_nos, is_full))`): for a
+    recording that stopped after the first slice of its second volume the PARTIAL volume's record is
+    kept (and comes first) and slice 2 of the complete volume is dropped; the current logic keeps
+    exactly the complete volume. -/
+theorem strict_truncated_orig_counterexample :
+    (sortedSlices exCfg true true exTrunc).map (fun l => l.map (·.2.payload)) = .ok [21, 11] ∧
+    (sortedSlices exCfg true false exTrunc).map (fun l => l.map (·.2.payload)) = .ok [11, 12] := by
+  decide
+
+/-! ### 4. truncated recordings: exactly the complete volumes -/
+
+/-- Meaning of the per-set fullness flag computed by `_strict_sort_order` (`vol_is_full` on the slice
+    numbers of ONE label set, tag = set number): the entry with volume number `v` in set `t` is full
+    iff every slice number of 1..max_slices occurs more than `v` times in set `t`.  With pairwise
+    distinct strict keys every (set, slice) pair occurs at most once, so `v = 0` and the flag says
+    "the label set of this record contains every slice number", i.e. the volume is complete. -/
+theorem full_flag_meaning (tagged : List (Nat × Int)) (smax : Int) :
+    volsAndFull tagged smax = (tagged.zip (occNumbers tagged)).map fun tv =>
+      (tv.2, (sliceRange smax).all fun s => decide (tv.2 < tagged.count (tv.1.1, s))) :=
+  volsAndFull_eq tagged smax
+
+/- FULL STATEMENT (not proved in this form):
+   ∀ c recs, keysNodup c recs → (∀ r ∈ recs, 1 ≤ r.slice ≤ c.maxSlices) →
+     (∃ s ∈ 1..maxSlices, every record with slice number s belongs to a complete label set) →
+     (some label set is complete) →
+     assembled c recs = .ok (the records of the complete label sets, by label key, then slice).
+   What is proved below: the CURRENT second sort stage followed by the trimming keeps exactly the
+   positions flagged full by the per-set test (`full_flag_meaning`), for EVERY record list (no key
+   hypothesis), under the hypothesis `hn` that `prod(shape[2:])` equals the number of flagged
+   positions.  Missing: (a) the bookkeeping lemma that set numbers identify label keys on the sorted
+   list, which turns "flagged full" into "label set complete" for key-distinct records; (b) a
+   sufficient structural condition for `hn`.  `hn` is genuinely needed: `_get_n_vols` counts GLOBAL
+   slice occurrences (`shape_perm_invariant`, `Lemmas.C20_Vol.mem_fullVols`: n_vols = the number of
+   v such that every slice number occurs more than v times in the whole file), which over-counts when
+   several partial volumes together cover every slice position — see
+   `truncated_multi_partial_overcount_witness` (open finding
+   parrec:truncated-multi-partial-nvols-overcount). -/
+/-- **truncated_exactly_full_volumes (partial).** -/
+theorem truncated_exactly_full_volumes_partial (c : Cfg) (recs : List Rec) (ann : List Ann) (nv : Nat)
+    (ha : annotate c (stableSort (strictLe c) recs) = .ok ann) (hv : nVols c recs = .ok nv)
+    (hn : nUsedOf (nSlices recs) nv =
+      ((ann.zip (stableSort (strictLe c) recs)).filter isFullEntry).length) :
+    ∃ kept, assembled c recs = .ok kept ∧
+      kept.Perm (((ann.zip (stableSort (strictLe c) recs)).filter isFullEntry).map (·.2)) := by
+  rw [assembled_eq, strictOrder_recs]
+  unfold strictRecs
+  rw [ha, hv]
+  refine ⟨_, rfl, ?_⟩
+  rw [← List.map_take]
+  exact (take_full_of_sorted _ _ hn).map _
+
+example : ∃ ann nv, annotate exCfg (stableSort (strictLe exCfg) exTrunc) = .ok ann ∧
+    nVols exCfg exTrunc = .ok nv ∧
+    nUsedOf (nSlices exTrunc) nv =
+      ((ann.zip (stableSort (strictLe exCfg) exTrunc)).filter isFullEntry).length ∧
+    assembled exCfg exTrunc = .ok [exRec 1 1 3 2 5 11, exRec 2 1 (-1) 4 3 12] :=
+  ⟨_, _, rfl, rfl, by decide, by decide⟩
+
+/-- three dynamics of two slices; the recording lost slice 2 of dynamic 2 and slice 1 of dynamic 3 -/
+def exMulti : List Rec := [exRec 1 1 0 1 1 11, exRec 2 1 0 1 1 12, exRec 1 2 0 1 1 21, exRec 2 3 0 1 1 32]
+
+/-- **Open finding, machine-checked on the model**: with two partial volumes that together cover
+    both slice positions `_get_n_vols` reports 2 volumes although only one label set is complete, and
+    the second "volume" is made of records of two different dynamics. -/
+theorem truncated_multi_partial_overcount_witness :
+    nVols ⟨.v42, false, 2, 1, 3, 1, 1⟩ exMulti = .ok 2 ∧
+    (assembled ⟨.v42, false, 2, 1, 3, 1, 1⟩ exMulti).map (·.map (·.payload)) = .ok [11, 12, 21, 32] := by
+  decide
+
+/-! ### 5. lax sorting preserves the file order -/
+
+/- FULL STATEMENT (not proved): for every record list and every slice number s, the records with slice
+   number s appear in the lax order in their file order (volume index = occurrence number).
+   Proved: a recording whose lax keys (not full, occurrence number, slice number) are already
+   non-decreasing — volume-major files with ascending slice numbers, complete or with a truncated
+   tail, the case in which `_get_unscaled` reads straight from the REC file — is left exactly in file
+   order: the index list is 0, 1, 2, …  Missing for the full statement: stability of `stableSort`
+   on a sorted sublist and monotonicity of the occurrence numbers along equal slice numbers. -/
+/-- **lax_order_preserving (partial).** -/
+theorem lax_order_preserving_partial (c : Cfg) (recs : List Rec) (keys : List (Bool × Nat × Int))
+    (hk : laxKeys c recs = .ok keys) (hs : keys.Pairwise (fun a b => laxLe a b = true))
+    (hl : keys.length = recs.length) :
+    laxOrder c recs = .ok (indexed recs) := by
+  unfold laxOrder
+  rw [hk]
+  show Except.ok _ = Except.ok _
+  congr 1
+  have hz : (keys.zip (indexed recs)).Pairwise
+      (fun a b : (Bool × Nat × Int) × Nat × Rec => laxLe a.1 b.1 = true) := by
+    have : (keys.zip (indexed recs)).map (·.1) = keys := by
+      rw [List.map_fst_zip]
+      unfold indexed
+      have := congrArg List.length (indexedFrom_map_snd 0 recs)
+      simp only [List.length_map] at this
+      omega
+    rw [← this] at hs
+    exact (List.pairwise_map.1 hs)
+  rw [stableSort_of_pairwise hz, List.map_snd_zip]
+  unfold indexed
+  have := congrArg List.length (indexedFrom_map_snd 0 recs)
+  simp only [List.length_map] at this
+  omega
+
+example : ∃ keys, laxKeys exCfg exTrunc = .ok keys ∧ keys.Pairwise (fun a b => laxLe a b = true) ∧
+    keys.length = exTrunc.length := ⟨_, rfl, by decide, by decide⟩
 
 end Nb.C20
